@@ -448,6 +448,19 @@ impl Gen {
                     v.push(rng.below(1 << 20) as i64);
                 }
                 let hint = if self.lying_hints && rng.below(3) == 0 { if rng.below(25) == 0 { self.max_hint } else { *rng.pick(&[0i64, 1, 7, 100, 1000, 3000]) } } else { -1 };
+                if kind == Kd::FromIter && rng.below(2) == 0 {
+                    // From<[T; N]>: a short array, often with a repeated key
+                    let n = *rng.pick(&[0usize, 1, 2, 3, 4, 5, 8]);
+                    v.truncate(2 * n);
+                    while v.len() < 2 * n {
+                        v.push(self.key(rng, sv, 30) as i64);
+                        v.push(rng.below(1 << 20) as i64);
+                    }
+                    if n >= 2 && rng.below(2) == 0 {
+                        v[2 * (n - 1)] = v[0];
+                    }
+                    return Op::new(kind).s(s).a(-1).b(1).v(v);
+                }
                 Op::new(kind).s(s).a(hint).v(v)
             }
             Kd::Retain => Op::new(kind).s(s).b((rng.below(100) < self.toggle_pct) as i64).v(self.subset(rng, sv)),
